@@ -555,22 +555,24 @@ fn run_wf(args: &[String]) {
     }
     // negative-entry LOOKUP (Entry.inode == 0) on servers negotiated at different minors: before 7.4 a zero nodeid is not
     // a valid reply, the protocol wants ENOENT
-    for minor in [3u64, 4, 33] {
-        let fs2 = Arc::new(ScriptedFs::new("s"));
-        let server2 = Server::new(fs2.clone());
-        let mut iv = Vals::new();
-        iv.insert("major".into(), 7);
-        iv.insert("minor".into(), minor);
-        let mut body = abi.encode("fuse_init_in", &iv);
-        body.truncate(16);
-        let mut h = Vals::new();
-        h.insert("len".into(), 56);
-        h.insert("opcode".into(), abi.konst("FUSE_INIT"));
-        h.insert("unique".into(), 1);
-        let mut ib = abi.encode("fuse_in_header", &h);
-        ib.extend(body);
-        fs2.set(Ret::Init(0));
-        let _ = run_fusedev(&server2, &ib, 4096, None, &pair);
+    // (minor in force, minor of a later INIT that the file system refuses): a refused INIT changes nothing
+    for (minor, refused) in [(3u64, None), (4, None), (33, None), (33, Some(3u64)), (5, Some(0)), (3, Some(33)), (0, Some(4))] {
+        let (fs2, server2) = negotiated_server(&abi, minor);
+        if let Some(m2) = refused {
+            let mut iv = Vals::new();
+            iv.insert("major".into(), 7);
+            iv.insert("minor".into(), m2);
+            let mut body = abi.encode("fuse_init_in", &iv);
+            body.truncate(16);
+            let mut h = Vals::new();
+            h.insert("len".into(), 56);
+            h.insert("opcode".into(), abi.konst("FUSE_INIT"));
+            h.insert("unique".into(), 2);
+            let mut ib = abi.encode("fuse_in_header", &h);
+            ib.extend(body);
+            fs2.set(Ret::Err { os: libc::EINVAL, kind: None });
+            let _ = run_fusedev(&server2, &ib, 4096, None, &pair);
+        }
         for rep in 0..(2 * k.max(1)) {
             let mut b = build(&abi, &mut rng, "LOOKUP", &[], false);
             let mut e = rentry(&mut rng);
@@ -581,7 +583,7 @@ fn run_wf(args: &[String]) {
             fs2.set(b.script.clone());
             fs2.take_log();
             let o = run_fusedev(&server2, &b.bytes, 4096, None, &pair);
-            emit_tx(&mut tr, &abi, &fs2, "fusedev", "LOOKUP", "wf", &b, &o, json!({"cap": 4096, "minor": minor}));
+            emit_tx(&mut tr, &abi, &fs2, "fusedev", "LOOKUP", "wf", &b, &o, json!({"cap": 4096, "minor": minor, "refused_init_minor": refused.map(|x| x as i64).unwrap_or(-1)}));
         }
     }
     // notification messages (fusedev only)
